@@ -160,6 +160,50 @@ MUTANTS = [
     ("c17_nofa_connect_graph_removed", "C17", "xitorch/grad/jachess.py",
      "        res = connect_graph(res, self.objparams)\n        return res\n",
      "        return res\n", 0),
+    # ---------------- C16
+    ("c16_mhcustom_restart_x0", "C16", "xitorch/_impls/integrate/mcsamples/mcmc.py",
+     "    xsamples = _mhcustom_sample(logpfcn, x, pparams, nsamples, custom_step, True)\n",
+     "    xsamples = _mhcustom_sample(logpfcn, x0, pparams, nsamples, custom_step, True)\n", 1),
+    ("c16_mhcustom_nburnout_samples", "C16", "xitorch/_impls/integrate/mcsamples/mcmc.py",
+     "    xsamples = _mhcustom_sample(logpfcn, x, pparams, nsamples, custom_step, True)\n",
+     "    xsamples = _mhcustom_sample(logpfcn, x, pparams, max(nburnout, 1), custom_step, True)\n", 1),
+    ("c16_mh_swap_counts", "C16", "xitorch/_impls/integrate/mcsamples/mcmc.py",
+     "    x, dtype, device = _mh_sample(logpfcn, x0, pparams, nburnout, step_size, False)\n    samples = _mh_sample(logpfcn, x, pparams, nsamples, step_size, True)\n",
+     "    x, dtype, device = _mh_sample(logpfcn, x0, pparams, nsamples, step_size, False)\n    samples = _mh_sample(logpfcn, x, pparams, nburnout, step_size, True)\n", 1),
+    ("c16_mh_burn_state_dropped", "C16", "xitorch/_impls/integrate/mcsamples/mcmc.py",
+     "    samples = _mh_sample(logpfcn, x, pparams, nsamples, step_size, True)\n",
+     "    samples = _mh_sample(logpfcn, x0, pparams, nsamples, step_size, True)\n", 1),
+    ("c16_mh_accept_wrong_sign", "C16", "xitorch/_impls/integrate/mcsamples/mcmc.py",
+     "            accept = log_rand[i] < logpratio\n", "            accept = log_rand[i] > logpratio\n", 1),
+    ("c16_mh_accept_halved", "C16", "xitorch/_impls/integrate/mcsamples/mcmc.py",
+     "            accept = log_rand[i] < logpratio\n", "            accept = log_rand[i] < 2 * logpratio\n", 1),
+    ("c16_mh_uphill_not_always", "C16", "xitorch/_impls/integrate/mcsamples/mcmc.py",
+     "        if logpratio > 0:\n            accept = True\n", "        if logpratio > 0:\n            accept = log_rand[i] < -logpratio\n", 1),
+    ("c16_mh_step_size_ignored_in_sampling", "C16", "xitorch/_impls/integrate/mcsamples/mcmc.py",
+     "    samples = _mh_sample(logpfcn, x, pparams, nsamples, step_size, True)\n",
+     "    samples = _mh_sample(logpfcn, x, pparams, nsamples, 1.0, True)\n", 1),
+    ("c16_weights_not_normalised", "C16", "xitorch/_impls/integrate/mcsamples/mcmc.py",
+     "    wsamples = wsamples / wsamples.sum()\n", "    wsamples = wsamples / wsamples.sum() * 1.0001\n", 1),
+    ("c16_mh_weights_off_by_one", "C16", "xitorch/_impls/integrate/mcsamples/mcmc.py",
+     "    weights = torch.zeros((samples.shape[0],), dtype=dtype, device=device) + (1. / samples.shape[0])\n",
+     "    weights = torch.zeros((samples.shape[0],), dtype=dtype, device=device) + (1. / max(samples.shape[0] - 1, 1))\n", 1),
+    ("c16_epf_omitted", "C16", "xitorch/integrate/mcquad.py",
+     "                dLdef = torch.dot((fout - epf).reshape(-1), grad_epf.reshape(-1))\n",
+     "                dLdef = torch.dot((fout).reshape(-1), grad_epf.reshape(-1))\n", 1),
+    ("c16_aug_no_create_graph", "C16", "xitorch/integrate/mcquad.py",
+     "                dLdthetap = _grad_or_zeros(pout, ptensor_params, dLdef.reshape(pout.shape),\n                                           create_graph=local_grad_enabled)\n",
+     "                dLdthetap = _grad_or_zeros(pout, ptensor_params, dLdef.reshape(pout.shape),\n                                           create_graph=False)\n", 1),
+    ("c16_backward_resamples_revert", "C16", "xitorch/integrate/mcquad.py",
+     "        res = _MCQuad.apply(pure_ffcn2, pure_logpfcn, x0, xsamples, wsamples,\n",
+     "        res = _MCQuad.apply(pure_ffcn2, pure_logpfcn, x0, None, None,\n", 1),
+    ("c16_unused_raises_revert", "C16", "xitorch/integrate/mcquad.py",
+     "                                allow_unused=True)\n    return tuple(torch.zeros_like(p) if g is None else g for (g, p) in zip(grads, params))\n",
+     "                                allow_unused=False)\n    return tuple(torch.zeros_like(p) if g is None else g for (g, p) in zip(grads, params))\n", 1),
+    ("c16_tuple_components_swapped", "C16", "xitorch/integrate/mcquad.py",
+     "        return packer.pack(res)\n", "        return packer.pack(res.flip(0))\n", 1),
+    ("c16_nofa_noise_upfront", "C16", "xitorch/_impls/integrate/mcsamples/mcmc.py",
+     "    for i in range(nsamples):\n        xnext = x + step_size * torch.randn_like(x)\n",
+     "    _noise = torch.randn((nsamples, *x0.shape), dtype=x0.dtype, device=x0.device)\n    for i in range(nsamples):\n        xnext = x + step_size * _noise[i]\n", 0),
     ("c11_nofa_init_subclass", "C11", "xitorch/_core/linop.py",
      "    def __new__(cls, *args, **kwargs):\n        # check the implemented functions in the class\n",
      "    def __init_subclass__(cls, **kwargs):\n        super().__init_subclass__(**kwargs)\n"
